@@ -295,6 +295,11 @@ def playback(prop, h, timeout_s=300):
 def run_family_set(prop, harnesses, jobs=12, timeout_s=120, cbmc_args=(), stats=None, max_playbacks=4):
     """run harnesses, confirm failures natively; -> list of family results"""
     t0 = time.time()
+    seen, uniq = set(), []
+    for h in harnesses:                      # the same harness may be requested twice (floor and ceiling lists overlap)
+        if h.name not in seen:
+            seen.add(h.name); uniq.append(h)
+    harnesses = uniq
     res = run_kani(prop, harnesses, jobs, timeout_s, cbmc_args=cbmc_args)
     out = []
     if res.get('__build_failed__'):
